@@ -5,6 +5,7 @@ import (
 	"os"
 	"testing"
 
+	badgerdb "github.com/dgraph-io/badger/v2"
 	"github.com/vipnode/vipnode/v2/pool/store"
 	"verifharness/vlib"
 )
@@ -36,3 +37,7 @@ func finish(t *testing.T, e *vlib.Evidence) {
 }
 
 func storeID(s string) store.NodeID { return store.NodeID(s) }
+
+func badgerMemOpts() badgerdb.Options {
+	return badgerdb.DefaultOptions("").WithInMemory(true).WithLogger(nil)
+}
